@@ -215,6 +215,65 @@ def requirement(rng, sysi, noise=0.0):
     return s
 
 
+# ----------------------------------------------------------------------------- shared endpoints
+
+def _interval(rng, sysi, lo, lo_open, hi, hi_open):
+    """the text of one interval; lo/hi are version texts (lo may be None = unbounded below)"""
+    parts = []
+    if lo is not None:
+        parts.append((b">" if lo_open else b">=") + lo)
+    if hi is not None:
+        parts.append((b"<" if hi_open else b"<=") + hi)
+    if sysi in (0, 4) and lo is not None and hi is not None and not lo_open and not hi_open and rng.random() < 0.3:
+        return lo + b" - " + hi
+    if rng.random() < 0.5:
+        parts.reverse()
+    return (b", " if sysi == 1 else b" ").join(parts)
+
+
+def shared_endpoint_pair(rng, sysi):
+    """two requirements (Default, Cargo, NPM) whose spans share a lower or an upper end, with
+    every combination of open/closed flags, nested, overlapping or touching; returns
+    (textA, textB, [the end points as probe texts])"""
+    base = sorted(set(tuple(num(rng) if rng.random() < 0.15 else rng.choice([0, 1, 2, 3]) for _ in range(3)) for _ in range(6)))
+    while len(base) < 4:
+        base.append((base[-1][0] + 1, 0, 0))
+    pts = [b"%d.%d.%d" % t for t in base[:4]]
+    if rng.random() < 0.2:
+        k = rng.randrange(4)
+        pts[k] = pts[k] + b"-" + pick(rng, [b"alpha", b"rc.1", b"0"])     # an open lower end needs a prerelease bound
+    p, q, r, s_ = pts
+    mode = rng.choice(["max", "max", "min", "touch", "nest"])
+    fl = lambda: rng.random() < 0.5
+
+    def lower(x):
+        return (x, fl() if b"-" in x else False)
+
+    if mode == "max":
+        a = (lower(rng.choice([p, q])), (r, fl()))
+        b = (lower(rng.choice([p, q])), (r, fl()))
+    elif mode == "min":
+        a = (lower(p), (rng.choice([q, r]), fl()))
+        b = (lower(p), (rng.choice([q, r, s_]), fl()))
+    elif mode == "touch":
+        a = (lower(p), (q, fl()))
+        b = (lower(q), (rng.choice([r, s_]), fl()))
+    else:
+        a = (lower(p), (s_, fl()))
+        b = (lower(rng.choice([p, q])), (rng.choice([r, s_]), fl()))
+    ta = _interval(rng, sysi, a[0][0], a[0][1], a[1][0], a[1][1])
+    tb = _interval(rng, sysi, b[0][0], b[0][1], b[1][0], b[1][1])
+    if sysi in (0, 4) and rng.random() < 0.35:
+        # a third interval as a further alternative, sharing an end with one of the others
+        c = (lower(rng.choice([p, q])), (rng.choice([r, s_]), fl()))
+        tc = _interval(rng, sysi, c[0][0], c[0][1], c[1][0], c[1][1])
+        if b" - " not in ta and b" - " not in tc or True:
+            ta = ta + b" || " + tc if rng.random() < 0.5 else tc + b"||" + ta
+    if rng.random() < 0.5:
+        ta, tb = tb, ta
+    return ta, tb, pts
+
+
 # ----------------------------------------------------------------------------- probes
 
 VERS = re.compile(rb"v?(\d+)(?:\.(\d+|[xX*]))?(?:\.(\d+|[xX*]))?(?:\.(\d+))?(?:-([0-9A-Za-z.-]+))?")
